@@ -69,18 +69,21 @@ CLAIMS = {
         technique="Lean 4 proof (rank-form invariant preserved by every operation, list induction over histories) + per-step correspondence",
         ref="§5 C01"),
     'C05': dict(
-        text="The Lean model is the definition (walk parent links, sum edge lengths). Theorems (Props/C05.lean, unbounded): directed distance "
-             "finite iff the target lies on the source's root path (= distal_to); distance to self is 0; `limit` keeps distances equal to the "
-             "limit; adjacency is the parent relation; cable = sum of child-parent lengths; the run-time checkers segmentsOKB / "
-             "smallSegmentsOKB mean: child->parent paths whose non-last elements are a permutation of the non-root nodes (every edge in exactly "
-             "one segment), lengths non-increasing, isolated nodes as single-node segments, small segments leaf/branch -> branch/root with slabs "
-             "between. Tie: geodesic_matrix (directed, weight, from_, limit incl. limits equal to a distance), dist_between, dist_to_root, "
-             "distal_to, cable_length, adjacency matrix, segments, small_segments, segment_length of real TreeNeurons with integer edge "
-             "lengths (checked per case) on shuffled/sparse/large ids and shuffled rows, diffed exactly against the model; checkers run on navis' lists.",
+        text="The Lean model is the definition (walk parent links, sum edge lengths). Theorems (Props/C05.lean, unbounded, none partial): "
+             "geodesic distance is symmetric, infinite exactly across fragments, equals the edge-length sum of an explicit duplicate-free "
+             "path through the lowest common ancestor; directed distance finite iff the target lies on the source's root path (= distal_to); "
+             "distance to self 0; `limit` keeps distances equal to the limit; adjacency = parent relation; root distance recurrence; cable = "
+             "sum of child-parent lengths; the model's small_segments and greedy segments satisfy the property for every well-formed forest "
+             "(child->parent paths whose non-last elements are a permutation of the non-root nodes = every edge in exactly one segment; small "
+             "segments leaf/branch -> branch/root with only slabs between; segments longest first, isolated nodes as single-node segments); any "
+             "list accepted by the run-time checkers has these properties and its segment lengths sum to the cable length. Tie: "
+             "geodesic_matrix (directed, weight, from_, limit incl. limits equal to a distance), dist_between, dist_to_root, distal_to, "
+             "cable_length, adjacency matrix, segments, small_segments, segment_length of real TreeNeurons with integer edge lengths (checked "
+             "per case) on shuffled/sparse/large ids and shuffled rows, diffed exactly against the model; checkers run on navis' own lists.",
         note="csgraph.dijkstra / igraph / fastcore compute the values in navis; the model is the definition. `segments` is compared with the "
-             "greedy-longest model only when leaf depths and segment lengths have no ties (otherwise only the checker decides). Symmetry / path-sum / "
-             "model-segment correctness theorems are in progress (Proofs/SegmentLemmas.lean).",
-        technique="Lean 4 definitions + proved-sound checkers + exact differential correspondence on integer-length forests",
+             "greedy-longest model only when leaf depths and segment lengths have no ties (otherwise only the proved-sound checker decides). "
+             "One open finding: skeleton_adjacency_matrix is broken under pandas 3.",
+        technique="Lean 4 proof (LCA path distances, edge-partition of segment decompositions) + exact differential correspondence",
         ref="§5 C05"),
     'C10': dict(
         text="Theorems (Props/C10.lean, 18, unbounded): subset returns exactly the requested present ids in table order, keeps the original "
